@@ -282,13 +282,13 @@ def check_history(events: list, table: dict[str, list], thread_inherits: bool = 
                 return bad(ref.classify(ctx, 'read', d['obs'], exp), seq, {'site': 'read:' + d.get('why', ''), 'diff': diff(d['obs'], exp)})
         elif kind == 'create':
             exp_caps = [ref.top(ctx)] * d['fresh'] + [c for h in d.get('inner', []) for c in ref.captured[h]]
-            if d['caps'] != exp_caps:
+            if d['caps'] is not None and d['caps'] != exp_caps:
                 return bad('K', seq, {'site': 'create', 'caps': d['caps'], 'expected': exp_caps})
             ref.captured[d['h']] = exp_caps
             ref.handle_meta[d['h']] = {'shape': d['shape'], 'ops': d['ops'], 'exact': d['exact']}
         elif kind == 'derive':
             exp_caps = ref.captured[d['src']]
-            if d['caps'] != exp_caps:
+            if d['caps'] is not None and d['caps'] != exp_caps:
                 return bad('K', seq, {'site': 'derive:' + d['kind'], 'caps': d['caps'], 'expected': exp_caps})
             ref.captured[d['h']] = exp_caps
             ref.handle_meta[d['h']] = {'shape': d['shape'], 'ops': d['ops'], 'exact': d['exact']}
@@ -299,7 +299,7 @@ def check_history(events: list, table: dict[str, list], thread_inherits: bool = 
             complaint = judge_apply(pred, d['raised'], d['fired'], d['fault_fired'], meta['shape'], caps)
             if complaint:
                 return bad('U', seq, {'site': 'apply', 'why': complaint})
-            if d['caps_after'] != caps:
+            if d['caps_after'] is not None and d['caps_after'] != caps:
                 return bad('U', seq, {'site': 'apply:captured-mutated', 'caps': d['caps_after'], 'expected': caps})
             exp = ref.top(ctx)
             if d['obs'] != exp:
